@@ -61,6 +61,7 @@ func c11Files(root string) {
 	w(".info_i.dat", ref.NewInfoFork("i.dat", "JPEG", "GKON", "").Encode()) // stored type differs from what the extension suggests
 	w("p.bin.incomplete", []byte("partia"))
 	w("d/inner.txt", []byte("in"))
+	w("other/q.sit/keep.txt", []byte("k")) // a folder that has the name of a file: moving that file here must fail and change nothing
 	_ = os.MkdirAll(filepath.Join(root, "e"), 0755)
 }
 
@@ -245,6 +246,43 @@ func (x *c11World) apply(op string) bool {
 			x.fail("move/request-failed", fmt.Sprintf("%s: %v", op, r))
 		}
 		m.relocate(src, dst, false)
+	case "movefail", "renamefail":
+		// the destination name is taken by a folder: whatever the reply, nothing may change
+		src := p[1]
+		if !m.exists(src) || m.isDir(src) || strings.HasPrefix(m.ent[src], "->") {
+			return false
+		}
+		var r *ref.Tx
+		if p[0] == "movefail" {
+			dst := join(p[2], filepath.Base(src))
+			if !m.isDir(p[2]) || !m.isDir(dst) {
+				return false
+			}
+			r = x.req(ref.Tx{Type: ref.TMoveFile, Fields: append(pathFields(dirOf(src)), ref.F(ref.FFileName, macRoman(filepath.Base(src))), ref.F(ref.FFileNewPath, pathFields(p[2])[0].Data))})
+		} else {
+			dst := join(dirOf(src), p[2])
+			if !m.isDir(dst) {
+				return false
+			}
+			r = x.req(ref.Tx{Type: ref.TSetFileInfo, Fields: append(pathFields(dirOf(src)), ref.F(ref.FFileName, macRoman(filepath.Base(src))), ref.F(ref.FFileNewName, macRoman(p[2])))})
+		}
+		if r != nil && r.Err == 0 {
+			x.fail("refused-operation/acknowledged-although-destination-is-a-folder", fmt.Sprintf("%s: %v", op, r))
+		}
+	case "uncomment":
+		src := p[1]
+		if !m.exists(src) || strings.HasPrefix(m.ent[src], "->") {
+			return false
+		}
+		if _, has := m.comments[src]; !has {
+			return false
+		}
+		r := x.req(ref.Tx{Type: ref.TSetFileInfo, Fields: append(pathFields(dirOf(src)), ref.F(ref.FFileName, macRoman(filepath.Base(src))), ref.F(ref.FFileComment, []byte{}))})
+		if r == nil || r.Err != 0 {
+			x.fail("comment/request-failed", fmt.Sprintf("%s: %v", op, r))
+		}
+		m.ent[sideFiles(src)[0]] = "\x00info"
+		m.comments[src] = ""
 	case "del":
 		src := p[1]
 		if !m.exists(src) {
@@ -487,7 +525,8 @@ func c11Alphabet() []string {
 		a = append(a, "rename|"+d+"|dd", "move|"+d+"|e", "move|"+d+"|d", "del|"+d, "comment|"+d)
 	}
 	a = append(a, "mkdir|new", "mkdir|a.txt", "mkdir|d", "mkdir|d/new", "mkdir|zé", "alias|a.txt|e", "alias|d|e", "alias|q.sit|d",
-		"rename|n1.txt|a.zip", "rename|a.txt|a.zip", "rename|i.dat|i.txt", "del|n1.txt", "move|n1.txt|e", "comment|n1.txt", "del|dd", "rename|dd|d", "mkdir|dd", "comment|e/a.txt", "del|e/a.txt", "rename|e/a.txt|r.txt")
+		"rename|n1.txt|a.zip", "rename|a.txt|a.zip", "rename|i.dat|i.txt",
+		"movefail|q.sit|other", "renamefail|q.sit|d", "renamefail|a.txt|e", "renamefail|i.dat|d", "uncomment|q.sit", "uncomment|a.txt", "uncomment|d", "del|n1.txt", "move|n1.txt|e", "comment|n1.txt", "del|dd", "rename|dd|d", "mkdir|dd", "comment|e/a.txt", "del|e/a.txt", "rename|e/a.txt|r.txt")
 	return a
 }
 
